@@ -228,6 +228,18 @@ fn check_text_case(unit: &Value, slot: usize, text: &str, only_format: Option<&s
                     continue;
                 }
                 Ok(decoded) => {
+                    // the fixed neighbours keep their own rows whatever the slot holds
+                    let mut fixed = vec!["plain help"];
+                    if slot == 3 {
+                        fixed.push("grouped help");
+                    }
+                    if slot == 6 {
+                        fixed.push("meta help");
+                    }
+                    if let Some(f) = fixed.iter().find(|f| !decoded.contains(**f)) {
+                        ctx.violation(viol("manpage-keeps-neighbouring-items", unit, json!({"slot": slot, "text": text, "format": format}), format, format!("decoded text contains the neighbouring help line {:?}", f), &out));
+                        continue;
+                    }
                     // decoding gives the user text back (help-like slots keep their case)
                     if slot == 0 || slot == 4 {
                         for l in text.split('\n') {
@@ -426,6 +438,14 @@ impl Check for C16 {
                 for s in strings(first, max_frags) {
                     check_text_case(unit, slot, &s, None, ctx);
                 }
+                if first == 0 {
+                    // empty and blank texts (metavariable and application name must not be empty)
+                    for s in ["", " ", "\n", "\n\n"] {
+                        if slot < 6 {
+                            check_text_case(unit, slot, s, None, ctx);
+                        }
+                    }
+                }
                 if ctx.wants_sample() {
                     ctx.sample(|| json!({"slot": slot, "first_fragment": FRAGS[first], "strings": strings(first, max_frags).len(), "formats": 3}));
                 }
@@ -446,7 +466,7 @@ impl Check for C16 {
         }
     }
     fn rule(&self) -> String {
-        "(1) structure: the C12 definition family (ordered tuples of <=2, thorough 3, of 15 documented field kinds x 6 tails incl. nested and hidden commands): render_markdown / render_html / render_manpage return, contain exactly one section per reachable command level, each section mentions every visible flag/argument/command name of that level and no hidden or alias name, --help, and --version exactly when that level (not the root, not a sibling) configures a version; (2) text: 8 text slots (item help, descr, header+footer, group title, positional help, command help + inner descr, metavariable, application name) with EVERY concatenation of <=3 (thorough 4) fragments from 22 roff/HTML/markdown metacharacter fragments (code-line start, fence start, .x 'x \\fB \\ - <zz> </dd> & > newline+. newline+' newline+space blank-line [x](y) ` * _ # é word): HTML scanned by an independent tag lexer (only the renderer's own tags, perfectly nested, no raw < or > from user text), manpage scanned by an independent roff lexer (every line starting with . or ' is one of .TH .SH .SS .TP .PP .nf .fi .ie .el; only the escapes \\fB \\fI \\fR \\fP \\- \\\\ \\& \\*(Aq '\\ '; decoding gives the help lines back); evaluation = one rendered document".into()
+        "(1) structure: the C12 definition family (ordered tuples of <=2, thorough 3, of 18 documented field kinds x 8 tails incl. nested and hidden commands and command paths that differ only in dash versus nesting): render_markdown / render_html / render_manpage return, contain exactly one section per reachable command level, each section mentions every visible flag/argument/command name of that level and no hidden or alias name, --help, and --version exactly when that level (not the root, not a sibling) configures a version; (2) text: 8 text slots (also empty and blank texts) (item help, descr, header+footer, group title, positional help, command help + inner descr, metavariable, application name) with EVERY concatenation of <=3 (thorough 4) fragments from 22 roff/HTML/markdown metacharacter fragments (code-line start, fence start, .x 'x \\fB \\ - <zz> </dd> & > newline+. newline+' newline+space blank-line [x](y) ` * _ # é word): HTML scanned by an independent tag lexer (only the renderer's own tags, perfectly nested, no raw < or > from user text), manpage scanned by an independent roff lexer (every line starting with . or ' is one of .TH .SH .SS .TP .PP .nf .fi .ie .el; only the escapes \\fB \\fI \\fR \\fP \\- \\\\ \\& \\*(Aq '\\ '; decoding gives the help lines back and keeps the fixed neighbouring items); evaluation = one rendered document".into()
     }
     fn bounds(&self, tier: Tier) -> Value {
         json!({"fragments_per_string": tier.pick(3, 4), "slots": 8, "structure_fields": tier.pick(2, 3)})
